@@ -1117,7 +1117,20 @@ class CheckC14(TwinCheck):
               "alloc_noise": r.choice([0, 1, 3])}
         d = len(A["domain"])
         free = A["partition"]["cls"] == "DimensionBinaryPartition" or (d == 1 and A["partition"]["cls"] in ("BinaryPartition", "KaryPartition"))
-        if free and algo != "VROOM" and r.random() < 0.8:
+        if free and algo != "VROOM" and r.random() < 0.3:
+            # A on an RNG-free configuration next to a B that draws from the shared global generator all the time (random
+            # partition, VROOM): A's sequence must not depend on how much of the stream its neighbour uses up - it would if A
+            # itself started to draw.  Only A is compared (B's draws are B's business here).
+            balgo = r.choice(gen.ALGOS_ALL)
+            pool = gen.PARTS_BINARY_CHILD if balgo == "VROOM" else [{"cls": "RandomBinaryPartition"}, {"cls": "RandomKaryPartition", "K": 3},
+                                                                 {"cls": "RandomKaryPartition", "K": 2}]
+            B = _twin_base(r, seed + 1, balgo, n=r.choice([100, 128]), parts=pool, real_prob=1.0)
+            B["rng"] = A["rng"]
+            B["rounds"] = min(B["rounds"], 150)
+            sc["B"] = B
+            sc["compare_B"] = False
+            sc["third_party"] = r.choice([0, 0, 1])
+        elif free and algo != "VROOM" and r.random() < 0.8:
             # half of the time the second instance is of the same class with other parameters: state shared
             # between instances of one class (class attributes, caches keyed too coarsely) shows exactly then
             balgo = algo if r.random() < 0.5 else r.choice([a for a in gen.ALGOS_ALL if a != "VROOM"])
